@@ -287,6 +287,8 @@ func (m *Monitor) IOFaulted(role, op, addr string) {
 		for _, a := range m.M.ByRelay[addr] {
 			m.markEnding(a, now, "relay-failure")
 		}
+	case op == "Close":
+		// Close reported an error; the socket is closed nevertheless
 	case role == "relay" && op == "WriteTo":
 		i := strings.Index(addr, ">")
 		m.relayWriteErr[addr[:i]] = true
@@ -545,6 +547,10 @@ func (m *Monitor) expectedLifetime(msg *stun.Message) (want int64, either bool) 
 func (m *Monitor) respAllocate(r *mReq, msg *stun.Message, ok bool, code int, I ivl) {
 	poss, def := m.ownerAllocs(r, I)
 	if !ok {
+		if code == 437 && len(poss) == 0 && r.Auth > 0 && !m.pendingAllocateOther(r) && len(m.K.StallIntervals()) == 0 {
+			m.v([]string{"C04", "C19"}, "cross-talk", kv("what", "allocate-437-without-allocation"),
+				"Allocate from %s answered 437 (allocation mismatch) although that 5-tuple has no allocation: another 5-tuple's allocation was found for it", r.Client)
+		}
 		if def != nil && r.Auth > 0 && def.TID != r.TID && code != 437 && code != 401 && code != 438 {
 			m.v([]string{"C19", "C04"}, "second-allocate-not-437", kv("code", itoa(code)),
 				"Allocate on a 5-tuple with a live allocation answered %d", code)
@@ -1240,6 +1246,18 @@ func (m *Monitor) explainDelete(a *mAlloc, client string, now int64) bool {
 	}
 	m.M.EndAlloc(a, ivl{a.Deadline.Lo, now}, "expiry")
 	return true
+}
+
+// pendingAllocateOther: another Allocate of the same client is still being handled.
+func (m *Monitor) pendingAllocateOther(self *mReq) bool {
+	for _, rs := range m.reqs {
+		for _, r := range rs {
+			if r != self && r.Client == self.Client && r.Method == stun.MethodAllocate && !r.Answered {
+				return true
+			}
+		}
+	}
+	return false
 }
 
 func (m *Monitor) pendingAllocate(client string) bool {
